@@ -34,6 +34,35 @@ var srcNets = []netSpec{
 	{"host 10.9.9.9", "host 10.9.9.9", ip4(10, 9, 9, 9), ip4(10, 9, 9, 9)},
 }
 
+// netOf: the source networks of the small universe; an index behind them is a filler host address that no
+// packet of the universe has (lines that pad an ACL to the sizes at which size guards could bite).
+func netOf(i int) netSpec {
+	if i < len(srcNets) {
+		return srcNets[i]
+	}
+	k := uint32(i - len(srcNets))
+	a := ip4(10, 200+(k>>16)&31, (k>>8)&255, k&255)
+	h := fmt.Sprintf("host 10.%d.%d.%d", 200+(k>>16)&31, (k>>8)&255, k&255)
+	return netSpec{h, h, a, a}
+}
+
+// padded: ls with n filler lines put in after position at; variant b drops one filler and adds another one.
+func padded(ls []absLine, n, at int, variantB bool) []absLine {
+	if n == 0 {
+		return ls
+	}
+	at = min(at, len(ls))
+	out := append([]absLine{}, ls[:at]...)
+	for i := 0; i < n; i++ {
+		k := i
+		if variantB && i == n/2 {
+			k = n
+		}
+		out = append(out, absLine{Act: "permit", Proto: "tcp", Src: len(srcNets) + k, Port: 80})
+	}
+	return append(out, ls[at:]...)
+}
+
 var pktSrcs = []uint32{ip4(10, 1, 2, 3), ip4(10, 1, 2, 9), ip4(10, 1, 5, 5), ip4(10, 2, 1, 1), ip4(10, 9, 9, 9), ip4(192, 168, 1, 1)}
 var pktPorts = []int{22, 53, 80}
 
@@ -65,7 +94,7 @@ func (l absLine) matches(p packet) bool {
 	if l.Proto != "ip" && l.Proto != p.proto {
 		return false
 	}
-	n := srcNets[l.Src]
+	n := netOf(l.Src)
 	if p.src < n.lo || p.src > n.hi {
 		return false
 	}
@@ -90,7 +119,7 @@ func (l absLine) body(ios bool) string {
 	if l.Act == "remark" {
 		return "remark " + l.Text
 	}
-	n := srcNets[l.Src]
+	n := netOf(l.Src)
 	src, dst := n.asa, "any4"
 	if ios {
 		src, dst = n.ios, "any"
